@@ -982,13 +982,15 @@ func genC05(t *rapid.T, spec *GenSpec) *Program {
 	}
 	n := rapid.IntRange(1, 16).Draw(t, "nops")
 	for i := 0; i < n; i++ {
-		switch pick(t, "op", 55, 38, 7) {
+		switch pick(t, "op", 55, 38, 7, 6) {
 		case 0:
 			p.Ops = append(p.Ops, Op{Kind: "batch", B: g.nextBatch(t)})
 		case 1:
 			p.Ops = append(p.Ops, Op{Kind: "mstep", MKind: mstepKinds[pick(t, "mkind", 60, 20, 20)]})
 		case 2:
 			p.Ops = append(p.Ops, Op{Kind: "reopen", Drain: true})
+		case 3:
+			p.Ops = append(p.Ops, Op{Kind: "revert", N: rapid.IntRange(0, 3).Draw(t, "rdepth")})
 		}
 	}
 	x := C05Extra{}
